@@ -766,10 +766,73 @@ func runC10(prop string, res *Result, pool *DrvPool, r *Rng) {
 				}
 			}
 		}
+		// a reader that fails ONCE at the cut (a timeout, an interrupted call) and would deliver the rest
+		// of the stream if it were asked again: the failure must still be reported as exactly that error
+		for k := 1; k < len(txt); k += 1 + r.Intn(3) {
+			for _, withData := range []bool{false, true} {
+				rd := &onceFailReader{data: []byte(txt), at: k, withData: withData, err: errOther{tag: 7 + k%3}}
+				var fwd bytes.Buffer
+				var s *stack.Snapshot
+				var rest []byte
+				var err error
+				if p := catch(func() { s, rest, err = stack.ScanSnapshot(rd, &fwd, &stack.Opts{}) }); p != nil {
+					res.Violation(Finding{Stream: "scan", What: fmt.Sprintf("a reader failing once at offset %d: ScanSnapshot panicked: %v", k, p), Op: map[string]interface{}{"input": hb(txt), "fail_once_at": k, "with_data": withData}})
+					break
+				}
+				res.Count("fail-once-cuts")
+				res.Eval(fmt.Sprintf("failonce|%d|%v|%s", k, withData, txt), true)
+				_ = s
+				if !rd.failed {
+					continue // the scan finished before it reached the failure
+				}
+				if err == nil && !rd.readAfter && (len(rest) != 0 || strings.HasSuffix(txt[:k], "==================\n")) {
+					continue // the dump ended (a terminating line, the closing separator) in what had been delivered
+				}
+				if err != error(rd.err) {
+					res.Violation(Finding{Stream: "scan", What: fmt.Sprintf("the reader failed once at offset %d with %q (it would have delivered the rest of the stream afterwards); ScanSnapshot reported %q and read on: %v", k, rd.err.Error(), errString(err), rd.readAfter), Op: map[string]interface{}{"input": hb(txt), "fail_once_at": k, "with_data": withData}})
+					break
+				}
+			}
+		}
 		if i < 2 {
 			res.Sample(map[string]interface{}{"stream": clip(txt), "offsets": len(txt)})
 		}
 	}
+}
+
+// onceFailReader delivers data[:at], fails once (with the last data or on a Read of its own), and
+// afterwards delivers the rest and io.EOF.
+type onceFailReader struct {
+	data      []byte
+	at        int
+	withData  bool
+	err       errOther
+	pos       int
+	failed    bool
+	readAfter bool
+}
+
+func (o *onceFailReader) Read(p []byte) (int, error) {
+	if o.failed {
+		o.readAfter = true
+		if o.pos >= len(o.data) {
+			return 0, io.EOF
+		}
+		n := copy(p, o.data[o.pos:])
+		o.pos += n
+		return n, nil
+	}
+	if o.pos >= o.at {
+		o.failed = true
+		return 0, o.err
+	}
+	n := copy(p, o.data[o.pos:o.at])
+	o.pos += n
+	if o.pos >= o.at && o.withData {
+		o.failed = true
+		return n, o.err
+	}
+	return n, nil
 }
 
 // runC10Located: cuts and reader failures with path guessing on and paths that DO resolve on
